@@ -14,7 +14,7 @@ fn c13_nesting_step() {
     let scheme = dangling_scheme();
     let mut p = FilterParser::new(scheme);
     assert!(p.max_nesting_depth() == 128, "default nesting limit must be 128");
-    assert!(p.current_nesting_depth == 0);
+    assert!(p.current_nesting_depth as u64 == 0);
     let limit: u16 = kani::any();
     let cur: u16 = kani::any();
     p.set_max_nesting_depth(limit);
@@ -26,12 +26,13 @@ fn c13_nesting_step() {
     p.wildcard_set_star_limit(star);
     p.regex_set_compiled_size_limit(rsize);
     p.regex_set_dfa_size_limit(dsize);
-    p.current_nesting_depth = cur;
+    // `as _`: the harness does not depend on the counter's integer type
+    p.current_nesting_depth = cur as _;
     let res = p.with_increased_nesting("x");
     match &res {
         Ok(nested) => {
             assert!(cur < limit, "accepted although the depth already reached the limit");
-            assert!(nested.current_nesting_depth == cur + 1, "depth not incremented by one");
+            assert!(nested.current_nesting_depth as u64 == cur as u64 + 1, "depth not incremented by one");
             assert!(nested.settings == p.settings, "settings changed by nesting");
             assert!(nested.wildcard_get_star_limit() == star && nested.regex_get_compiled_size_limit() == rsize
                 && nested.regex_get_dfa_size_limit() == dsize && nested.max_nesting_depth() == limit,
